@@ -8,7 +8,8 @@ McNewCfgs == {<<100>>, <<50, 50>>}
 McReconfQuick == {<<>>, <<100>>, <<50, 50>>, <<49, 51>>}
 McReconfAll == Configs
 McExtraQuick == {<<1, 49, 50>>, <<49, 50, 51>>}
-McExtraThorough == {<<25, 25, 25, 25>>, <<1, 33, 33, 33>>}
+McExtraThorough == {<<25, 25, 25, 25>>, <<1, 33, 33, 33>>, <<0, 0, 100>>}     \* (<<0, 0, 100>>: the keys are rotated - only key 3 is registered)
+McNewThorough == {<<100>>, <<50, 50>>, <<0, 0, 100>>}
 McNone == {}
 McNegNew == {<<100>>}
 McNegCfgs == {<<50, 50>>}
